@@ -492,7 +492,7 @@ def rule_typename_matrix(ctx):
         args = [ctx.pv.eval(f_, a, {}, 0) for a in c['args']]
         fields = set()
         for a in args:
-            fields |= TM.fields_in(a)
+            fields |= TM.fields_in(a) | ctx.pv.fields_through_private(a)
         if 'ResolvedFragment.selection_set' in fields or 'ResolvedFragment.on' in fields:
             roles['fragment'] = n
         if 'SelectedField.selection_set' in fields or 'Query.selections' in fields:
